@@ -210,14 +210,30 @@ def _write_files(opdir, files):
     return paths
 
 
+def _outpath(op, root):
+    """absolute output path, or (op['relpath']) the same file written relative to the current directory,
+    optionally through a '..' detour (paths a user types)"""
+    full = os.path.join(root, op["out"])
+    if not op.get("relpath"):
+        return Path(full)
+    rel = os.path.relpath(full, os.getcwd())
+    if op["relpath"] == "dotdot":
+        d, b = os.path.split(rel)
+        sub = os.path.basename(os.path.dirname(full))
+        rel = os.path.join(d, "..", sub, b) if d else os.path.join("..", os.path.basename(os.getcwd()), b)
+    return Path(rel)
+
+
 def op_gen_params(op, root, opdir, cap):
     """returns kwargs and performs the call; raises whatever gen_params raises"""
     import vermouth
     import polyply.src.gen_itp as gi
     import polyply.src.load_library as ll
     paths = _write_files(opdir, op.get("files", []))
-    kw = {"name": op.get("name", "POL"), "outpath": Path(os.path.join(root, op["out"]))}
+    kw = {"name": op.get("name", "POL"), "outpath": _outpath(op, root)}
     kw["inpath"] = [] if op.get("files_as_library") else paths
+    if not kw["inpath"] and not op.get("via_main"):
+        del kw["inpath"]          # API use without -f: gen_params' own default applies
     if op.get("lib"):
         kw["lib"] = list(op["lib"])
     g = op["graph"]
@@ -258,7 +274,7 @@ def op_gen_params(op, root, opdir, cap):
     try:
         if op.get("via_main"):
             _run_main(["gen_params", "-name", kw["name"], "-o", str(kw["outpath"])]
-                      + (["-f"] + [str(p) for p in kw["inpath"]] if kw["inpath"] else [])
+                      + (["-f"] + [str(p) for p in kw["inpath"]] if kw.get("inpath") else [])
                       + (["-lib"] + kw["lib"] if kw.get("lib") else [])
                       + (["-seq"] + kw["seq"] if "seq" in kw else ["-seqf", str(kw["seq_file"])]))
         else:
@@ -286,12 +302,14 @@ def _run_main(argv):
 
 def op_gen_seq(op, root, opdir):
     from polyply.src.gen_seq import gen_seq
-    kw = {"name": op.get("name", "seq"), "outpath": Path(os.path.join(root, op["out"])),
+    kw = {"name": op.get("name", "seq"), "outpath": _outpath(op, root),
           "seq": list(op["seq"]), "macro_strings": list(op.get("macros", [])),
           "connects": list(op.get("connects", []))}
     if op.get("from_file"):
         paths = _write_files(opdir, op.get("files", []))
         kw["inpath"] = [] if op.get("files_as_library") else paths
+    if not kw["inpath"] and not op.get("via_main"):
+        del kw["inpath"]          # API use without -f: gen_params' own default applies
         kw["from_file"] = list(op["from_file"])
     gen_seq(**kw)
 
@@ -301,7 +319,7 @@ def op_gen_coords(op, root, opdir):
     from gen import topgen
     files = topgen.render_top(op["spec"])
     _write_files(opdir, list(files.items()))
-    kw = {"toppath": Path(os.path.join(opdir, "system.top")), "outpath": Path(os.path.join(root, op["out"])),
+    kw = {"toppath": Path(os.path.join(opdir, "system.top")), "outpath": _outpath(op, root),
           "name": "verif"}
     if op["opts"].get("box") is not None:
         kw["box"] = np.array(op["opts"]["box"], dtype=float)
